@@ -53,16 +53,20 @@ def unit(rec):
     for D in (10, 50, 200, 500, 2000):
         for dt in (0.1, 0.5, 1, 2, 5, 10):
             cases.append((D, dt, LIN))
-    # requested times just outside / just inside the matcher's tolerance of a grid time, and rounded fractions
+    # requested times just outside / just inside the matcher's tolerance of a grid time (one distance per
+    # case: every request then has a consistent neighbourhood), and rounded fractions
     for D, dt in ((300, 10), (1000, 10), (200, 7), (50, 0.5)):
-        near = []
-        for k in (1, 3, int(D / dt) // 2, int(D / dt) - 1):
-            g = k * dt / D
-            for d in (1.5e-10, 2e-10, 5e-10, 9e-10, 1e-9, 3e-9, 5e-11, 1e-11):
-                near += [g + d, g - d]
-        cases.append((D, dt, sorted({e for e in near if 0 < e < 1}) + [1.0]))
+        ks = (1, 3, int(D / dt) // 2, int(D / dt) - 1)
+        for d in (1.5e-10, 2e-10, 5e-10, 9e-10, 1e-9, 3e-9, 5e-11, 1e-11):
+            near = [k * dt / D + s * d for k in ks for s in (1, -1)]
+            cases.append((D, dt, sorted({e for e in near if 0 < e < 1}) + [1.0]))
         cases.append((D, dt, [round(i / 6, 9) for i in range(7)]))
         cases.append((D, dt, [round(i / 7, 10) for i in range(8)]))
+    # requested times within the matcher's tolerance of EACH OTHER, off the grid: one request to the matcher
+    for D, dt in ((1000, 7), (300, 10), (1000, 10), (50, 0.5)):
+        cases.append((D, dt, [0.3, 0.1 + 0.2, 0.7]))
+        cases.append((D, dt, [0.1234, 0.1234 + 5e-11, 0.1234 + 9e-11, 0.77, 0.77 + 1e-11]))
+        cases.append((D, dt, [1 / 3 - 2e-10, 1 / 3 - 1.5e-10, 2 / 3 + 1.5e-10, 2 / 3 + 2e-10]))
     for D, dt, req in cases:
         tt = _get_target_times(Seq(D), config(req), dt)
         for e in req:
@@ -248,23 +252,32 @@ def e2e_default_times(backend="sv", D=1000, dt=10):
     return 0
 
 
-CLOSE_PAIRS = [
-    # (duration, dt, time of observable A, time of observable B): two requests within the matcher's
-    # tolerance of each other and off the grid -- one request for the matcher
-    (1000, 7, 0.3, 0.1 + 0.2),                 # one rounding error apart
-    (1000, 7, 0.3, 0.3 + 5e-11),               # 5e-11 apart
-    (1000, 7, 0.45, 0.45 + 1e-10 - 1e-13),     # just inside the tolerance
+CLOSE_REQUESTS = [
+    # (duration, dt, [time of observable 1, time of observable 2, ...]): requests of DIFFERENT observables within
+    # the matcher's tolerance of each other and off the grid -- one request for the matcher
+    (1000, 7, [0.3, 0.1 + 0.2]),                     # one rounding error apart
+    (1000, 7, [0.3, 0.3 + 5e-11]),                   # 5e-11 apart
+    (1000, 7, [0.45, 0.45 + 1e-10 - 1e-13]),         # just inside the tolerance
+    (1000, 7, [0.6, 0.6 + 4e-11, 0.6 + 9e-11]),      # three requests, diameter below the tolerance
+]
+# The regime EXCLUDED by the hypothesis of the separation clause (contracts/timegrid.py: separated): a request
+# whose neighbours (requests / grid times within the tolerance of it) are not within the tolerance of one
+# another.  `--residual` shows what the code does there; it is not part of the replay's verdict.
+RESIDUAL = [
+    (1000, 7, [0.3, 0.3 + 0.8e-10, 0.3 + 1.6e-10]),  # chain of three requests, diameter 1.6e-10
+    (1000, 10, [0.3 + 0.5e-10, 0.3 + 1.2e-10]),      # grid time 300, a request on it, one 1.2e-10 off it
 ]
 
 
-def run_two_observables(backend, D, dt, ta, tb):
-    """Occupation requested at [ta], Energy at [tb] -> (target times, {name: stored times}) ; raises what the
-    backend raises"""
+def run_observables(backend, D, dt, times):
+    """one observable per entry of `times`, requested at that time only -> (target times, [(tag, requested time,
+    stored times)]); raises what the backend raises"""
     from native_util import make_sequence_data, patch_pulser_observable
     patch_pulser_observable()
     from emu_base.pulser_adapter import _get_target_times
-    from pulser.backend import Energy, Occupation
-    obs = [Occupation(evaluation_times=[ta]), Energy(evaluation_times=[tb])]
+    from pulser.backend import Energy, EnergyVariance, Occupation
+    kinds = [Occupation, Energy, EnergyVariance]
+    obs = [kinds[i % 3](evaluation_times=[t], tag_suffix=str(i)) for i, t in enumerate(times)]
     if backend == "sv":
         from emu_sv import SVConfig
         from emu_sv.sv_backend_impl import SVBackendImpl
@@ -290,39 +303,43 @@ def run_two_observables(backend, D, dt, ta, tb):
                 os.remove(impl.autosave_file)
             except Exception:
                 pass
-    return tt, {o.tag: [float(t) for t in stored_times(res, o)] for o in obs}
+    return tt, [(o.tag, t, [float(x) for x in stored_times(res, o)]) for o, t in zip(obs, times)]
 
 
-def e2e_close_requests(backend="sv", pairs=None):
-    """Two observables whose evaluation times are within the matcher's tolerance of each other (and off
-    the grid): each must be recorded exactly once (and the run must not raise)."""
+def e2e_close_requests(backend="sv", cases=None, verdict="REPRODUCED"):
+    """Observables whose evaluation times are within the matcher's tolerance of each other (and off the grid):
+    each must be recorded exactly once, at a time that matches its request (and the run must not raise)."""
     rc = 0
-    for D, dt, ta, tb in (pairs or CLOSE_PAIRS):
-        what = (f"emu-{backend}, duration={D}, dt={dt}, Occupation at [{ta!r}], Energy at [{tb!r}] "
-                f"(|difference| = {abs(ta - tb):.3g})")
+    for D, dt, times in (cases or CLOSE_REQUESTS):
+        what = (f"emu-{backend}, duration={D}, dt={dt}, one observable at each of {times!r} "
+                f"(spread {max(times) - min(times):.3g})")
+        from emu_base.pulser_adapter import _get_target_times
+        tt = _get_target_times(Seq(D), config(times), dt)
+        near = [float(t) for t in tt if min(abs(t / tt[-1] - e) for e in times) <= 3 * TOL]
         try:
-            tt, stored = run_two_observables(backend, D, dt, ta, tb)
+            tt, stored = run_observables(backend, D, dt, times)
         except Exception as e:
-            from emu_base.pulser_adapter import _get_target_times
-            tt = _get_target_times(Seq(D), config([ta, tb]), dt)
-            near = [t for t in tt if abs(t / tt[-1] - ta) <= 2 * TOL]
-            print(f"REPRODUCED: {what}: {type(e).__name__}: {' '.join(str(e).split())[:200]} "
+            print(f"{verdict}: {what}: {type(e).__name__}: {' '.join(str(e).split())[:150]}... "
                   f"(target times near the requests: {near!r})")
             rc = 1
             continue
-        near = [t for t in tt if abs(t / tt[-1] - ta) <= 2 * TOL]
-        bad = {k: v for k, v in stored.items() if len(v) != 1}
+        bad = [(tag, t, v) for tag, t, v in stored if len(v) != 1 or abs(v[0] - t) > TOL]
         if bad:
-            print(f"REPRODUCED: {what}: target times {near!r} both match both requests; stored times "
-                  f"{stored!r}: recorded {max(len(v) for v in bad.values())} times for one requested time")
+            print(f"{verdict}: {what}: target times near the requests: {near!r}; "
+                  + "; ".join(f"{tag} requested at {t!r} is stored {len(v)} times {v!r}" for tag, t, v in bad))
             rc = 1
         else:
-            print(f"NOT-REPRODUCED ({what}): target times near the requests {near!r}; stored {stored!r}")
+            print(f"NOT-{verdict} ({what}): target times near the requests {near!r}; every observable stored once: "
+                  f"{[v[0] for _, _, v in stored]!r}")
     return rc
 
 
 def main():
     rec = None
+    if "--residual" in sys.argv:        # demonstration only (excluded regime), always exit 0
+        for backend in ("sv", "mps"):
+            e2e_close_requests(backend, RESIDUAL, verdict="RESIDUAL-REGIME-FAILS")
+        return 0
     if len(sys.argv) > 1 and os.path.exists(sys.argv[1]):
         with open(sys.argv[1]) as f:
             rec = json.load(f)
